@@ -111,13 +111,20 @@ def _bd_cond(P, twin):
     return bd
 
 
-def _errors(P, ys, xe):
+def _amp(P):
+    return float(P.get("amp", 1.0))
+
+
+def _errors(P, ys, xe, relative=False):
     K = P["order"]
     ys = np.atleast_2d(ys)
     out = []
+    # BVP: SciPy's collocation tolerance is relative to (1 + |f|), i.e. absolute for small solutions - scale max(1, |y|).
+    # IVP (relative=True): rtol/atol semantics - errors are measured relative to the size of the solution (`amp`).
+    amp = float(P.get("amp", 1.0)) if relative else 1.0
     for k in range(min(K, ys.shape[0])):
         ex = OP.sol_deriv(P["terms"], k, xe)
-        scale = max(1.0, float(np.max(np.abs(ex))))
+        scale = amp * max(1.0, float(np.max(np.abs(ex))) / amp)
         out.append(float(np.max(np.abs(ys[k] - ex))) / scale)
     return out
 
@@ -276,7 +283,7 @@ def _op_bvp(ctx, op, state):
         osc = _outcome(lambda: np.asarray(sol(xs), dtype=float))
         if osc[0] == "ok":
             vs = float(np.ravel(osc[1])[0])
-            if abs(vs - float(y0[7])) > 1e-12 * max(1.0, abs(float(y0[7]))):
+            if abs(vs - float(y0[7])) > 1e-12 * max(abs(float(y0[7])), 1e-300) and abs(vs - float(y0[7])) > 1e-300:
                 ctx.violate("scalar-vs-array", "bvp", sig, f"solution callable at the scalar {xs} gives {vs}, at the array element {float(y0[7])}")
             ctx.probes.hit("scalar-evaluation-compared")
     h = hash_array(yc)
@@ -324,9 +331,17 @@ def _recheck_held(ctx, state, sig):
         oc = _outcome(lambda: np.asarray(sol(xs.copy()), dtype=float))
         if oc[0] == "raise":
             ctx.violate("held-solution-raise", "bvp", name, f"a solution callable returned earlier raises {oc[1]!r} after later solves")
-        elif oc[1].shape != v0.shape or not np.allclose(oc[1], v0, rtol=0, atol=1e-12 * max(1.0, float(np.max(np.abs(v0)))), equal_nan=True):
+        elif oc[1].shape != v0.shape or not np.allclose(oc[1], v0, rtol=1e-12, atol=1e-300, equal_nan=True):
             ctx.violate("held-solution-changed", "bvp", name, "a solution callable returned by an earlier solve gives different values after later solves / evaluations")
         ctx.probes.hit("held-solution-re-evaluated")
+        buf = xs.copy()
+        buf *= 0.999  # values this callable has not seen before, in the caller's own buffer
+        first = _outcome(lambda: np.asarray(sol(buf), dtype=float))
+        buf += 0.01 * (xs[-1] - xs[0]) * np.linspace(0.2, -0.2, buf.size)  # the caller moves its evaluation buffer in place
+        moved = _outcome(lambda: np.asarray(sol(buf), dtype=float))
+        fresh = _outcome(lambda: np.asarray(sol(buf.copy()), dtype=float))
+        if first[0] == moved[0] == fresh[0] == "ok" and not np.allclose(moved[1], fresh[1], rtol=1e-12, atol=1e-300, equal_nan=True):
+            ctx.violate("moved-buffer", "bvp", name, "solution callable evaluated on a buffer that was moved in place differs from the evaluation on a fresh array with the same values")
 
 
 def _op_ivp(ctx, op, state):
@@ -359,7 +374,12 @@ def _op_ivp(ctx, op, state):
         sh["y0"] = np.array(y0, dtype=float) if kind == "array" else (tuple(y0) if kind == "tuple" else list(y0))
     y0 = sh["y0"]  # one initial-data object for every IVP solve of the run (direct and through the transform)
     rtol = 1e-10
-    oc = _outcome(lambda: solve_ode_ivp((a, b), fx, coeffs, y0, transform=tf, method=method, no_derivatives=False, rtol=rtol, atol=1e-10))
+    # absolute tolerance: 1e-10 for O(1) solutions; for tiny / huge solutions purely relative control (atol = 0, legal in SciPy)
+    positive = P["order"] == 1 and all(t[0] == "exp" and t[1] > 0 for t in P["terms"])
+    atol = 0.0 if (positive and _amp(P) != 1.0) else 1e-10 * _amp(P)
+    if atol == 0.0:
+        ctx.probes.hit("ivp-purely-relative-tolerance")
+    oc = _outcome(lambda: solve_ode_ivp((a, b), fx, coeffs, y0, transform=tf, method=method, no_derivatives=False, rtol=rtol, atol=atol))
     sig = f"{P['order']}:{_tname(tspec)}:{method}"
     if oc[0] == "raise":
         ctx.violate("ivp-raise", "ivp", f"{sig}:{type(oc[1]).__name__}", f"solve_ode_ivp raised {oc[1]!r} (order {P['order']}, transform {tspec}, method {method})")
@@ -375,10 +395,10 @@ def _op_ivp(ctx, op, state):
     if o2[0] == "ok" and not np.array_equal(oe[1], keep, equal_nan=True):
         ctx.violate("result-overwritten", "ivp", sig, "an array returned by the IVP solution callable changed when the callable was evaluated again at other points")
     if o2[0] == "ok":
-        e2 = _errors(P, o2[1], xr)
+        e2 = _errors(P, o2[1], xr, relative=True)
         if not np.isfinite(max(e2)) or max(e2) / 1e-8 > IVP_ENVELOPE:
             ctx.violate("accuracy", "ivp", sig, f"IVP solution evaluated at unordered points is off by {max(e2):.3g} (order {P['order']}, transform {tspec}, method {method})")
-    errs = _errors(P, oe[1], xe)
+    errs = _errors(P, oe[1], xe, relative=True)
     ratio = max(errs) / 1e-8
     ctx.probes.hit("ivp-solved")
     state["ivp_ratio"] = max(state.get("ivp_ratio", 0.0), ratio)
@@ -395,6 +415,7 @@ def _op_perturb(ctx, op, state):
 
 class OdeSeamEngine:
     NAME = "rng-seam-ode"
+    RUN_TIMEOUT_S = 600  # generous: a run normally takes well under a second, but the machine may be heavily loaded
     PID = "C15"
     LEVEL = "exploration"
     RULE = (
